@@ -168,6 +168,8 @@ def wire_stats(world):
 def gen_case(rng, tier):
     from .. import mixgen
     cfg = mixgen.draw_config(rng, links_allowed=mixgen.WITH_WS)
+    if rng.random() < 0.12:
+        cfg['lease'] = mixgen.draw_leases(rng)
     n_c = rng.choice([0, 1, 1, 2, 3, 6])
     n_s = rng.choice([0, 1, 1, 2, 3, 6])
     if n_c + n_s == 0:
@@ -218,7 +220,7 @@ def run_case(gen, idx, rng, tier):
     deciding['fragmented_frames_seen'] = fragmented
     ev = {'wire_frames': sum(1 for e in world.events if e['kind'] == 'wire'),
           'api_events': sum(1 for e in world.events if e['kind'] != 'wire'),
-          'runs_' + cfg['link']: 1}
+          'runs_' + cfg['link']: 1, 'runs_with_lease_gating': 1 if cfg.get('lease') else 0}
     for s in specs:
         ev['interactions_%s_%s' % (s['model'], s['side'])] = ev.get('interactions_%s_%s' % (s['model'], s['side']), 0) + 1
     seen = set()
